@@ -273,7 +273,7 @@ def gen_ops(rng, n, weights=None, pool_uids=0):
     """Abstract operations; targets are indices resolved against the live tree at run time."""
     w = {"create_group": 3, "create_object": 5, "add_data": 7, "rename": 2, "flag": 2, "set_values": 3,
          "set_geometry": 2, "move": 3, "remove_ws": 3, "remove_parent": 2, "copy": 3, "pg_add": 3, "pg_remove": 1,
-         "reopen": 2, "gc": 1, "protect": 1, "retype": 1, "reattach": 1, "comment": 2, "visual": 1}
+         "reopen": 2, "gc": 1, "protect": 1, "retype": 1, "reattach": 1, "comment": 2, "visual": 1, "remove_all": 1}
     w.update(weights or {})
     kinds = [k for k, c in w.items() for _ in range(c)]
     ops = []
@@ -601,6 +601,28 @@ class Session:
             self.record({"o": "move", "u": self.uids.num(e.uid), "parent": self.uids.num(par.uid)}, "ok")
             del par
             return
+        if k == "remove_all":
+            # the caller hands the object its own list of children: obj.remove_children(obj.children)
+            from geoh5py.groups import PropertyGroup as _PG
+            o = self.pick(ents, op["a"], lambda x: is_obj(x) and sum(1 for c in x.children if is_data(c)) >= 2
+                          and all(getattr(c, "allow_delete", True) for c in x.children))
+            if o is None:
+                return
+            nums = [self.uids.num(c.uid) for c in o.children if not isinstance(c, _PG)]
+            try:
+                o.remove_children(o.children)
+            except Exception as ex:  # noqa: BLE001
+                self.failures.append((f"remove_children(all children) raised {type(ex).__name__}: {str(ex)[:80]}", "C05:remove_parent:raises"))
+                return
+            del ents
+            gc.collect()
+            self.events.append(f"remove_all children of {self.uids.num(o.uid)}: {nums}")
+            for n_ in nums[:-1]:
+                self.lines.append({"m": "ws", "op": "step", "o": "detach", "u": n_})
+                self.expect.append({"out": "ok"})
+            self.record({"o": "detach", "u": nums[-1]}, "ok")
+            self.check_removed(nums, "remove_parent")
+            return
         if k in ("remove_ws", "remove_parent"):
             e = self.pick(ents, op["a"], not_root)
             if e is None:
@@ -775,6 +797,17 @@ class Session:
             if got is not None:
                 self.failures.append((f"get_entity still returns removed entity {n} after {how}", f"C05:{how}:lookup-yields-removed"))
                 break
+        # the workspace listings must still work and must not show a removed entity
+        try:
+            listed = {self.uids.num(x.uid) for lst in (self.ws.groups, self.ws.objects, self.ws.data, self.ws.property_groups)
+                      for x in lst}
+            if listed & set(sub):
+                self.failures.append((f"workspace listings still show removed entities {sorted(listed & set(sub))} after {how}",
+                                      f"C05:{how}:listed-after-removal"))
+            del listed
+        except Exception as ex:  # noqa: BLE001
+            self.failures.append((f"a workspace listing raised {type(ex).__name__}: {str(ex)[:80]} after {how}",
+                                  f"C05:{how}:listing-raises:{type(ex).__name__}"))
         tree = self.snap()
         left = set(tree_uids(tree)) & set(sub)
         if left:
